@@ -81,6 +81,11 @@ def case(inp):
             return False, ('ion sequence == slice of the peptide', want.serialize()), f.sequence, None
         if f.monoisotopic != mono:
             return False, 'monoisotopic flag', f.monoisotopic, None
+        refn = pt.mass(f.sequence, charge=0, ion_type=f.ion_type, monoisotopic=mono, isotope=f.isotope, loss=f.loss)
+        if abs(f.neutral_mass - refn) > 1e-6:
+            return False, ('ion neutral mass == mass() of its own sequence at charge 0', f.ion_type, f.start, f.end, f.charge, f.sequence, refn), f.neutral_mass, None
+        if f.internal != (f.start != 0 and f.end != n) or f.unmod_sequence != a.sequence[f.start:f.end]:
+            return False, ('internal flag / unmodified residues of the span', f.start, f.end), (f.internal, f.unmod_sequence), None
     # projections
     for rt, proj in (('mass', lambda f: f.mass), ('mz', lambda f: f.mz), ('label', lambda f: f.label),
                      ('mass-label', lambda f: (f.mass, f.label)), ('mz-label', lambda f: (f.mz, f.label))):
